@@ -246,6 +246,10 @@ def run(ctx):
                              "directory is consulted only when none is recorded")
     flf = fb.find("interpreter::interpreter::Interpreter::file_library_factory")
     d_loc = libtables.rule_location(ctx, "C14-location", "C14-errors-are-results")
+    # what reading a library file leaves behind: nothing under any name but the requested one (history independence)
+    ctx.rule("C14-history-independent", "loading a library from its file registers / caches nothing under another name the file may also "
+                                        "hold: the outcome of a later import does not depend on this one having been attempted")
+    libtables.rule_file_load(ctx, "C14-history-independent")
 
     def _old_location():
         cds = [(b, t) for b, t in flf.calls() if callee_matches(t, "std::env::current_dir")]
